@@ -36,8 +36,9 @@ TWrite == /\ IsEv("write")
                          ELSE [j \in DOMAIN table \cup {a.id} |-> IF j = a.id THEN a ELSE table[j]]
              /\ log' = Append(log, [before |-> b, after |-> a, bad |-> FALSE, maybe |-> FALSE])
           /\ UNCHANGED <<filt, pc, ndep, cur, held, dirty, nw, nbad>>
-TGarble == /\ IsEv("garble") /\ E.k \in DOMAIN log
-           /\ log' = [log EXCEPT ![E.k].bad = TRUE]
+\* a change event carries every row its statement changed: garbling it garbles all of them
+TGarble == /\ IsEv("garble") /\ E.k \in DOMAIN log /\ (E.k + E.n - 1) \in DOMAIN log
+           /\ log' = [j \in DOMAIN log |-> IF j >= E.k /\ j < E.k + E.n THEN [log[j] EXCEPT !.bad = TRUE] ELSE log[j]]
            /\ UNCHANGED <<filt, table, pc, ndep, cur, held, dirty, nw, nbad>>
 \* ALTER TABLE: events committed before it keep the old column count; whether the poll loop can still
 \* decode one depends on what it has cached, so for those the real outcome (E.bad) is taken as given
@@ -45,13 +46,15 @@ TAlter == /\ IsEv("alter")
           /\ log' = [k \in DOMAIN log |-> [log[k] EXCEPT !.maybe = TRUE]]
           /\ UNCHANGED <<filt, table, pc, ndep, cur, held, dirty, nw, nbad>>
 \* exactly the registered dependencies of the queries the event affects were invalidated
-TDeliver == /\ IsEv("deliver") /\ log # <<>>
-            /\ LET h == Head(log)
-                   ev == [h EXCEPT !.bad = E.bad] IN
-               /\ (h.maybe \/ h.bad = E.bad)
-               /\ \A q \in Active : Count(q, E.inv) = IF Affected(ev, q) THEN ndep[q] ELSE 0
-               /\ dirty' = [q \in Queries |-> dirty[q] \/ (q \in Active /\ cur[q] /\ Affected(ev, q))]
-            /\ log' = Tail(log)
+\* one delivery = the rows event of one statement = the next E.n rows of the log; a registered dependency is
+\* invalidated (once) if any of those rows touches its filter
+TDeliver == /\ IsEv("deliver") /\ E.n >= 1 /\ Len(log) >= E.n
+            /\ LET rows == [j \in 1..E.n |-> [log[j] EXCEPT !.bad = E.bad]]
+                   hit(q) == \E j \in 1..E.n : Affected(rows[j], q) IN
+               /\ \A j \in 1..E.n : log[j].maybe \/ log[j].bad = E.bad
+               /\ \A q \in Active : Count(q, E.inv) = IF hit(q) THEN ndep[q] ELSE 0
+               /\ dirty' = [q \in Queries |-> dirty[q] \/ (q \in Active /\ cur[q] /\ hit(q))]
+            /\ log' = SubSeq(log, E.n + 1, Len(log))
             /\ UNCHANGED <<filt, table, pc, ndep, cur, held, nw, nbad>>
 \* a run may also begin although nothing the model sees invalidated the query (reactive re-runs a computation
 \* that was invalidated while it was still running, and the release of a superseded dependency invalidates it
